@@ -476,8 +476,11 @@ def describe(pool, op, outcome, clause):
         args = [k(op[1])]
     else:
         args = [k(a) for a in op[1:]]
-    return {"op": name, "args": args, "pre": op_tags(pool, op),
+    desc = {"op": name, "args": args, "pre": op_tags(pool, op),
             "outcome": outcome[0] if outcome[0] == "ok" else outcome[1], "clause": clause}
+    if isinstance(clause, str) and clause.startswith("changed:"):
+        desc["fields"] = clause[len("changed:"):].split(",")       # as a list, for the known-findings matcher
+    return desc
 
 
 # --------------------------------------------------------------------------- alphabet
